@@ -343,7 +343,53 @@ def run(R):
         else:
             R.violation("C06.limit", w.spath, "%s writes the LIMIT counter from something else than the emitted rows (e.g. per line): lines that "
                                               "yield no row would use up the limit" % w.path, [w.loc()])
+    # a line that yields no row must not stop the reading either: the input loops end only at end of input / limit / interrupt, whatever
+    # a line contains (the line-source rules of C12, re-decided here because invisibility of a line includes "the lines after it are read")
+    from . import rules_c12
+    from .rules_c16 import RemapRules
+    rules_c12.run(RemapRules(R, "C12.", "C06.input-"))
     R.assume("extraction is a pure function of (definition, line): decided separately by C01.pure")
+
+
+def line_memo_rule(R, rid):
+    """no per-line entry of ExecutionEngine keeps a memo of earlier lines: a field of the engine that the entry itself assigns and also
+    reads makes what happens to a line depend on the lines before it (a row suppressed because "the previous line looked the same")"""
+    from . import effects as E
+    P = R.prog
+    ENG_ADT = "sqlgrep::execution::execution_engine::ExecutionEngine"
+    R.rule(rid, "the per-line entries of ExecutionEngine (execute_select, execute_aggregate, execute_aggregate_update) assign no field of "
+                "the engine that they also read (statistics that cannot reach a result excepted): a line is evaluated on its own")
+    reach = P.reachable(rules_sites_roots(R))
+    inert = E.inert_fields(P, ENG_ADT, reach)
+    n = 0
+    for nm in ("execute_select", "execute_aggregate", "execute_aggregate_update"):
+        f0 = P.fn(ENG_ADT + "::" + nm)
+        if f0 is None:
+            continue
+        f = PR.view(P, f0)
+        n += 1
+        written = {}
+        for i, st in f.stmts():
+            if st["k"] == "assign" and st["pl"]["l"] == 1 and place_fields(st["pl"]):
+                written.setdefault(place_fields(st["pl"])[0], "%s:%d" % (f.file, st["line"]))
+        for c in f.calls:
+            if re.search(r"^core::mem::(replace|take|swap)$|^core::option::Option::(replace|insert|take|get_or_insert_with|get_or_insert)$", short(c.name)) and c.args:
+                sp = F.source_place(f, c.args[0])
+                if sp and sp["l"] == 1 and place_fields(sp):
+                    written.setdefault(place_fields(sp)[0], c.loc())
+        memo = [(fld, loc) for fld, loc in sorted(written.items()) if fld not in inert and
+                [1 for (bb, st) in PR.field_reads(f, fld) if not (isinstance(st, dict) and st.get("k") == "assign" and st["pl"]["l"] == 1 and
+                                                                  place_fields(st["pl"])[:1] == [fld])]]
+        if memo:
+            for fld, loc in memo[:2]:
+                R.violation(rid, "%s|memo|%s" % (nm, fld), "ExecutionEngine::%s assigns self.%s and reads it: a memo of earlier lines decides what "
+                            "happens to this line (e.g. a row is skipped because the previous line looked the same, although expressions can "
+                            "also read `input`)" % (nm, fld), [loc])
+        else:
+            R.ok(rid, nm, "assigns no engine field that it reads (%s)" % (sorted(written) or "no field assigned"), f.loc(), nontrivial=False)
+    if n == 0:
+        from .core import AnchorMissing
+        raise AnchorMissing("no per-line entry of ExecutionEngine found")
 
 
 def _is_outcome_assignment(f, bb):
